@@ -1031,6 +1031,14 @@ func (c *cenv) TypedUF(name string) ([]types.Type, types.Type, bool) {
 		return []types.Type{dec, dec}, dec, true
 	case "requiredFees":
 		return []types.Type{types.Typ[types.Uint64], dec}, coins, true
+	case "coinsIsAnyGTE":
+		return []types.Type{coins, coins}, types.Typ[types.Bool], true
+	case "decCoinsIsZero":
+		return []types.Type{dec}, types.Typ[types.Bool], true
+	case "txFee":
+		return []types.Type{types.NewInterfaceType(nil, nil)}, coins, true
+	case "txGas":
+		return []types.Type{types.NewInterfaceType(nil, nil)}, types.Typ[types.Uint64], true
 	}
 	return nil, nil, false
 }
